@@ -238,7 +238,10 @@ int decide(const bool allowCreate, const std::uintptr_t boundary){
 
 } // namespace
 
+void (*progressHook)() = nullptr;
+
 void submit(const std::vector<Access>& acc, int priority, const char* label, const std::function<void()>& body, std::uintptr_t boundary){
+    if(progressHook) progressHook();
     if(boundary == 0) boundary = reinterpret_cast<std::uintptr_t>(__builtin_frame_address(0)) + 16;
     if(!E.active){ body(); return; }
     while(decide(true, boundary) >= 0){}
